@@ -460,7 +460,12 @@ func (l *Lexer) scanText() Token {
 	}
 
 	value := strings.TrimSpace(l.input[start:l.pos])
-	return Token{Type: TokenText, Value: value, Pos: startPos, End: l.position()}
+	end := l.position()
+	if strings.HasPrefix(l.input[start:l.pos], value) {
+		// the token ends with its text, not with the blanks that follow it
+		end = Position{Line: startPos.Line, Column: startPos.Column + utf16Len(value), Offset: start + len(value)}
+	}
+	return Token{Type: TokenText, Value: value, Pos: startPos, End: end}
 }
 
 // atLineEnd reports whether the lexer stands on a line terminator: "\n", or
